@@ -32,7 +32,14 @@ func extraMaxFromEnv() map[string]int {
 	return m
 }
 
-const rlimitAS = 4 << 30
+// address-space cap of a worker: a legitimate decode needs a few MiB (the largest codec working set is 8 MiB);
+// the Go runtime itself maps ≈1.5 GiB at start-up, so 2 GiB leaves ≈0.5 GiB of heap and makes a runaway allocation fail fast
+var rlimitAS = func() uint64 {
+	if v, err := strconv.Atoi(os.Getenv("VERIF_C10_RLIMIT_MB")); err == nil && v > 0 {
+		return uint64(v) << 20
+	}
+	return 2048 << 20
+}()
 
 // TestChild: worker. Address space capped so that a multi-GiB make() kills only this process; the case
 // being executed is in the progress file.
@@ -43,15 +50,51 @@ func TestChild(t *testing.T) {
 	metrics.UseNilMetrics = true
 	_ = syscall.Setrlimit(syscall.RLIMIT_AS, &syscall.Rlimit{Cur: rlimitAS, Max: rlimitAS})
 	sarama.VerifC09Families(extraMaxFromEnv())
-	c09.ChildLoop(func(u string) interface{} {
-		from := 0
-		if i := strings.LastIndex(u, "@"); i >= 0 {
-			from, _ = strconv.Atoi(u[i+1:])
-			u = u[:i]
-		}
-		return sarama.VerifC10RunUnit(u, from, c09.Progress)
+	c09.ChildLoopEmit(func(u string, emit func(interface{})) interface{} {
+		base, from, skip := parseUnit(u)
+		return sarama.VerifC10RunUnit(base, from, skip, c09.Progress, func(r sarama.VerifC10Result) { emit(r) })
 	})
 	exitCode = 0
+}
+
+// unit strings on the wire: "base" | "base@from" | "base@from!skip1,skip2" (indices of cases known to kill the process)
+func parseUnit(u string) (base string, from int, skip map[int]bool) {
+	skip = map[int]bool{}
+	base = u
+	if i := strings.LastIndex(u, "@"); i >= 0 {
+		base = u[:i]
+		rest := u[i+1:]
+		if j := strings.Index(rest, "!"); j >= 0 {
+			for _, x := range strings.Split(rest[j+1:], ",") {
+				if n, err := strconv.Atoi(x); err == nil {
+					skip[n] = true
+				}
+			}
+			rest = rest[:j]
+		}
+		from, _ = strconv.Atoi(rest)
+	}
+	return
+}
+
+func formatUnit(base string, from int, skip map[int]bool) string {
+	var l []int
+	for k := range skip {
+		if k >= from {
+			l = append(l, k)
+		}
+	}
+	sort.Ints(l)
+	s := fmt.Sprintf("%s@%d", base, from)
+	for i, k := range l {
+		if i == 0 {
+			s += "!"
+		} else {
+			s += ","
+		}
+		s += strconv.Itoa(k)
+	}
+	return s
 }
 
 func TestCheck(t *testing.T) {
@@ -131,7 +174,14 @@ func TestCheck(t *testing.T) {
 			c.Report(ev.Violation{Signature: sig, Message: msg, Check: check, Replay: map[string]string{"case": caseID}})
 		}
 	}
-	pool.OnResult = func(unit string, line []byte) {
+	recycles := 0
+	flushedNext := map[string]int{}      // base unit -> first case index whose result has not been received yet
+	fatal := map[string]map[int]bool{}   // base unit -> case indices that killed a worker
+	pool.IsPartial = func(line []byte) bool { return strings.Contains(string(line[:minInt(len(line), 4096)]), `"partial":true`) || strings.Contains(string(line), `"partial":true`) }
+	var absorb func(unit string, line []byte) (next string)
+	pool.OnPartial = func(unit string, line []byte) { absorb(unit, line) }
+	pool.OnResultNext = func(unit string, line []byte) string { return absorb(unit, line) }
+	absorb = func(unit string, line []byte) (next string) {
 		var r sarama.VerifC10Result
 		if err := json.Unmarshal(line, &r); err != nil {
 			c.EngineError("unit " + unit + ": bad result line: " + err.Error())
@@ -141,8 +191,18 @@ func TestCheck(t *testing.T) {
 			c.EngineError("unit " + unit + ": " + r.EngineErr)
 			return
 		}
+		base, _, _ := parseUnit(unit)
+		if r.Partial || r.Recycle {
+			flushedNext[base] = r.Next
+		}
+		if r.Recycle {
+			recycles++
+			next = formatUnit(base, r.Next, fatal[base])
+		}
 		a := fam(r.Family)
-		a.Units++
+		if !r.Partial && !r.Recycle {
+			a.Units++
+		}
 		a.Seeds += r.Seeds
 		a.Cases += r.Cases
 		a.Panics += r.Outcomes["panic"]
@@ -179,25 +239,29 @@ func TestCheck(t *testing.T) {
 			nsamples++
 			c.AddSample(r.Sample)
 		}
+		return
 	}
 	pool.OnDeath = func(unit, why, progress string) string {
 		deaths++
-		base := unit
-		if i := strings.LastIndex(base, "@"); i >= 0 {
-			base = base[:i]
-		}
+		base, _, _ := parseUnit(unit)
 		f := strings.Split(base, "|")[0]
 		fam(f).Deaths++
 		if !strings.HasPrefix(progress, base+"#") {
 			c.EngineError("worker died in unit " + unit + " (" + why + ") and the progress file does not name a case of it: " + progress)
 			return ""
 		}
-		kind := "killed"
+		failure, kind := "death", "killed"
 		switch {
 		case strings.Contains(why, "hang"):
 			kind = "hang"
+		case strings.Contains(why, "out of memory") || strings.Contains(why, "cannot allocate"):
+			// the Go runtime gave up on an allocation under the address-space cap: the extreme form of the allocation clause
+			failure, kind = "alloc", "excessive"
+			outcomes["alloc-fatal"]++
+		case strings.Contains(why, "stack overflow") || strings.Contains(why, "stack exceeds"):
+			kind = "stack-overflow"
 		case strings.Contains(why, "exit status 2"):
-			kind = "fatal-error" // Go runtime fatal error: out of memory / stack overflow
+			kind = "fatal-error"
 		}
 		outcomes["death-"+kind]++
 		codec := ""
@@ -210,12 +274,41 @@ func TestCheck(t *testing.T) {
 				}
 			}
 		}
-		report(fmt.Sprintf("death type=%s%s kind=%s", f, codec, kind),
-			fmt.Sprintf("the worker process (address space capped at %d GiB) died while decoding case %s: %s", rlimitAS>>30, progress, why), unit, progress)
+		report(fmt.Sprintf("%s type=%s%s kind=%s", failure, f, codec, kind),
+			fmt.Sprintf("the worker process (address space capped at %d MiB) died while decoding case %s: %s", rlimitAS>>20, progress, why), unit, progress)
 		idx, _ := strconv.Atoi(progress[strings.LastIndex(progress, "#")+1:])
-		return fmt.Sprintf("%s@%d", base, idx+1)
+		if fatal[base] == nil {
+			fatal[base] = map[int]bool{}
+		}
+		fatal[base][idx] = true
+		// results since the last partial answer died with the worker: run again from there, leaving out the fatal cases
+		return formatUnit(base, flushedNext[base], fatal[base])
 	}
+	slow := map[string]time.Duration{}
+	pool.OnTime = func(unit string, d time.Duration, died bool) {
+		base, _, _ := parseUnit(unit)
+		slow[base] += d
+	}
+	abandoned := map[string]int{}
+	pool.OnAbandon = func(unit string, deaths int) { abandoned[unit] = deaths }
 	completed, all := pool.Run(ids)
+	{
+		type kv struct {
+			k string
+			d time.Duration
+		}
+		var l []kv
+		for k, d := range slow {
+			l = append(l, kv{k, d})
+		}
+		sort.Slice(l, func(i, j int) bool { return l[i].d > l[j].d })
+		var top []string
+		for i := 0; i < len(l) && i < 8; i++ {
+			top = append(top, fmt.Sprintf("%s %.1fs", l[i].k, l[i].d.Seconds()))
+		}
+		c.Set("slowest_units", top)
+		c.Set("units_abandoned", abandoned)
+	}
 	exhaustive := all && completed == len(ids)
 	short := 3
 	if thorough {
@@ -233,6 +326,7 @@ func TestCheck(t *testing.T) {
 	c.Set("distinct_error_texts", len(errorsSeen))
 	c.Set("crc_clause_cases_checked", crcChecked)
 	c.Set("worker_deaths", deaths)
+	c.Set("worker_recycles_after_big_allocation", recycles)
 	c.Set("max_alloc_bytes_within_allowance_or_not", maxAlloc)
 	c.Set("max_codec_working_set_bytes", workingSet)
 	c.Set("per_family", perFam)
@@ -254,9 +348,16 @@ func TestCheck(t *testing.T) {
 		"allocation is measured as runtime.MemStats.TotalAlloc delta around the decode call in a single-threaded worker with the collector paused; a case over the allowance is measured a second time (warm pools) and judged on the smaller value",
 		"for seeds carrying a compressed payload the allowance additionally contains 40 × decompressed size and the codec's working set measured on the valid seed with cold pools",
 		"hang detection: 60 s watchdog per unit in the parent (a unit takes well under a second)",
-		"cases of a unit executed before a worker death are re-counted only from the case after the fatal one")
+		"a worker answers every 1000 cases; after a worker death the unit is run again from the last answer, leaving out the fatal case(s), so no result is lost")
 	fmt.Printf("C10: %d units (%d completed), %d seeds, %d cases, %d distinct, outcomes %v, crc-clause cases %d, deaths %d, %.1fs\n", len(ids), completed, seeds, cases, distinct, outcomes, crcChecked, deaths, time.Since(start).Seconds())
 	exitCode = c.Finish()
+}
+
+func minInt(a, b int) int {
+	if a < b {
+		return a
+	}
+	return b
 }
 
 func replay(path string) int {
